@@ -510,6 +510,87 @@ theorem battery_htlc (p : HtlcParams) (hv : htlcValidate p = .ok ())
     simp [n1, n2, n3, n4]
 
 
+/-- all counters in `[0, n]` -/
+def Tiny (n : Int) (s : Supply) : Prop :=
+  (0 ≤ s.incoming ∧ s.incoming ≤ n) ∧ (0 ≤ s.outgoing ∧ s.outgoing ≤ n) ∧
+  (0 ≤ s.current ∧ s.current ≤ n) ∧ (0 ≤ s.timeLimitedCurrent ∧ s.timeLimitedCurrent ≤ n)
+
+theorem Tiny.small {n : Int} {s : Supply} (h : Tiny n s) (hn : n ≤ 1000000) : SupplySmall s := by
+  obtain ⟨⟨a0, a1⟩, ⟨b0, b1⟩, ⟨c0, c1⟩, ⟨d0, d1⟩⟩ := h
+  exact ⟨⟨a0, by unfold pow2_128; omega⟩, ⟨b0, by unfold pow2_128; omega⟩, ⟨c0, by unfold pow2_128; omega⟩,
+    ⟨d0, by unfold pow2_128; omega⟩⟩
+
+theorem Tiny.incoming {n : Int} {a : AssetParam} {s : Supply} {amt : Int} (h : Tiny n s) (hamt : 0 ≤ amt) :
+    Tiny (n + amt) (supplyAfter (htltIncoming a s amt) s) := by
+  obtain ⟨⟨a0, a1⟩, ⟨b0, b1⟩, ⟨c0, c1⟩, ⟨d0, d1⟩⟩ := h
+  cases hr : htltIncoming a s amt with
+  | error e => exact ⟨⟨a0, by simp only [supplyAfter]; omega⟩, ⟨b0, by simp only [supplyAfter]; omega⟩,
+      ⟨c0, by simp only [supplyAfter]; omega⟩, ⟨d0, by simp only [supplyAfter]; omega⟩⟩
+  | ok s' =>
+    rw [htltIncoming_ok hr]
+    exact ⟨⟨by simp only [supplyAfter]; omega, by simp only [supplyAfter]; omega⟩, ⟨b0, by simp only [supplyAfter]; omega⟩,
+      ⟨c0, by simp only [supplyAfter]; omega⟩, ⟨d0, by simp only [supplyAfter]; omega⟩⟩
+
+/-- the carry-over part: under a validated set without an extreme magnitude none of its operations aborts -/
+theorem battery_htlc_carry (p : HtlcParams) (hv : htlcValidate p = .ok ())
+    (hc : abortClass (.htlc p) = none) : batteryHtlcCarry p = [] := by
+  cases p with
+  | nil => rfl
+  | cons a rest =>
+    have hok : AssetOk a := htlcValidate_ok hv a (List.mem_cons_self ..)
+    have hnb : (big a.fixedFee || big a.minSwapAmount || big a.maxSwapAmount ||
+        big a.supplyLimit.limit || big a.supplyLimit.timeBasedLimit) = false := by
+      simp only [abortClass, extremeMagnitude] at hc
+      by_cases h : (List.any (a :: rest) fun a => big a.fixedFee || big a.minSwapAmount || big a.maxSwapAmount ||
+          big a.supplyLimit.limit || big a.supplyLimit.timeBasedLimit) = true
+      · simp [h] at hc
+      · simp only [List.any_cons, Bool.or_eq_true, not_or] at h
+        simpa using h.1
+    simp only [Bool.or_eq_false_iff] at hnb
+    obtain ⟨⟨⟨⟨hbf, hbmn⟩, _⟩, _⟩, _⟩ := hnb
+    have hfee : ∀ f' mn', a.fixedFee = some f' → a.minSwapAmount = some mn' → f' < pow2_128 ∧ mn' < pow2_128 :=
+      fun f' mn' h1 h2 => ⟨not_big hbf h1, not_big hbmn h2⟩
+    have hp : (10000 : Int) < pow2_128 := by unfold pow2_128; omega
+    have z0 : Tiny 5000 carrySupply := by simp only [Tiny, carrySupply]; omega
+    have a3000 : (0 : Int) ≤ 3000 ∧ (3000 : Int) < pow2_128 := ⟨by omega, by omega⟩
+    have a2500 : (0 : Int) ≤ 2500 ∧ (2500 : Int) < pow2_128 := ⟨by omega, by omega⟩
+    have a7 : (0 : Int) ≤ 7 ∧ (7 : Int) < pow2_128 := ⟨by omega, by omega⟩
+    have a1200 : (0 : Int) ≤ 1200 ∧ (1200 : Int) < pow2_128 := ⟨by omega, by omega⟩
+    simp only [batteryHtlcCarry]
+    have n1 : isPanic (htltClaimIncoming a carrySupply 3000) = false :=
+      isPanic_of_noabort (htltClaimIncoming_noabort hok (z0.small (by omega)) a3000)
+    -- after the two claims every counter is still non-negative and small
+    have z2 : Tiny 8000 { supplyAfter (htltClaimIncoming a carrySupply 3000) carrySupply with
+        outgoing := (supplyAfter (htltClaimIncoming a carrySupply 3000) carrySupply).outgoing - 1500,
+        current := (supplyAfter (htltClaimIncoming a carrySupply 3000) carrySupply).current - 1500 } := by
+      cases hr : htltClaimIncoming a carrySupply 3000 with
+      | error e =>
+        simp only [supplyAfter, Tiny, carrySupply]; omega
+      | ok s' =>
+        unfold htltClaimIncoming at hr
+        split at hr
+        · cases hr
+        · obtain ⟨e1, e2, e3, e4⟩ := incrementCurrent_ok hr
+          simp only [carrySupply] at e1 e2 e3 e4
+          simp only [supplyAfter, Tiny, e1, e2, e3]
+          rcases e4 with e4 | e4 <;> rw [e4] <;> omega
+    generalize htltClaimIncoming a carrySupply 3000 = r1 at n1 z2 ⊢
+    generalize supplyAfter r1 carrySupply = s1 at z2 ⊢
+    generalize ({ s1 with outgoing := s1.outgoing - 1500, current := s1.current - 1500 } : Supply) = s2 at z2 ⊢
+    have n3 : isPanic (htltIncoming a s2 2500) = false :=
+      isPanic_of_noabort (htltIncoming_noabort hok (z2.small (by omega)) a2500)
+    have z3 : Tiny (8000 + 2500) (supplyAfter (htltIncoming a s2 2500) s2) := z2.incoming (by omega)
+    generalize htltIncoming a s2 2500 = r3 at n3 z3 ⊢
+    generalize supplyAfter r3 s2 = s3 at z3 ⊢
+    have n4 : isPanic (htltIncoming a s3 7) = false :=
+      isPanic_of_noabort (htltIncoming_noabort hok (z3.small (by omega)) a7)
+    have z4 : Tiny (8000 + 2500 + 7) (supplyAfter (htltIncoming a s3 7) s3) := z3.incoming (by omega)
+    generalize htltIncoming a s3 7 = r4 at n4 z4 ⊢
+    generalize supplyAfter r4 s3 = s4 at z4 ⊢
+    have n5 : isPanic (htltOutgoing a s4 1200 a.maxBlockLock) = false :=
+      isPanic_of_noabort (htltOutgoing_noabort hok (z4.small (by omega)) a1200 _ hfee)
+    simp [n1, n3, n4, n5]
+
 /-! ## battery lines: an abort the model predicts under a validated set always carries a class -/
 
 theorem battery_nil_of_no_class (cur : AnyParams) (hv : validateAny cur = .ok ())
@@ -517,7 +598,7 @@ theorem battery_nil_of_no_class (cur : AnyParams) (hv : validateAny cur = .ok ()
   cases cur with
   | coinswap p => exact battery_coinswap p hv hc
   | farm p => exact battery_farm p hv hc
-  | htlc p => exact battery_htlc p hv hc
+  | htlc p => simp [batteryOf, battery_htlc p hv hc, battery_htlc_carry p hv hc]
   | service p => exact battery_service p hv hc
   | token p => exact battery_token p hv hc
 
